@@ -8,7 +8,7 @@ interfaces it declares, at a type whose possible object types are among those of
 directives `@skip` / `@include` the printer interprets have to be the built-in ones as far as their `if` argument goes
 (`skipIncludeB`; a schema may shadow them — see `Props/C08Stages.lean` for the witness).
 
-Here: those two decidable conditions, `possibleTypes` facts under `SchemaValid`, monotonicity of `selOkB` / `fitsS` in the
+Here: those decidable conditions (and `schemaOkB`, the part of C03's `SchemaValid` that is used), `possibleTypes` facts, monotonicity of `selOkB` / `fitsS` in the
 depth bound, `dirsOkB` from a quiet `check_directives`, and `OpTypes.fragsOf = fragMap`.
 -/
 import NitroVerif.Lemmas.CheckOpCompleteSites
@@ -43,7 +43,14 @@ def skipIncludeB (S : Schema) : Bool :=
 /-- `o` names a defined object type -/
 def IsObj (S : Schema) (o : Name) : Prop := ∃ od, S.typeDef? o = some od ∧ od.kind = .object
 
-/-! ### `SchemaValid` in the form used here -/
+/-! ### the schema condition `schemaOkB` (a small part of C03's `SchemaValid`) -/
+
+/-- type names are unique, no type declares a field named `__typename`, and the members of every union are defined
+    object types.  Implied by `SchemaValid` (`schemaOk_of_valid`) and established by the schema checker for documents
+    with unique type names (`schemaOk_of_accepted`, Lemmas/StagesIface.lean). -/
+def schemaOkB (S : Schema) : Bool :=
+  nodupB (S.typeDefs.map (·.name)) && noReservedFieldsB S &&
+  S.typeDefs.all fun t => t.kind != .union || t.members.all fun m => S.kindOf? m.1 == some .object
 
 theorem nodup_of_nodupB : ∀ {l : List Name}, nodupB l = true → l.Nodup
   | [], _ => List.nodup_nil
@@ -51,12 +58,45 @@ theorem nodup_of_nodupB : ∀ {l : List Name}, nodupB l = true → l.Nodup
     obtain ⟨h1, h2⟩ := (nodupB_cons_iff x xs).mp h
     exact List.nodup_cons.2 ⟨h1, nodup_of_nodupB h2⟩
 
-theorem typeNamesNodup_of_valid {S : Schema} (h : SchemaValid S) : TypeNamesNodup S :=
-  nodup_of_nodupB (schemaFacts_of_valid h).typeND
+theorem typeNamesNodup_of_valid {S : Schema} (h : schemaOkB S = true) : TypeNamesNodup S := by
+  unfold schemaOkB at h
+  simp only [Bool.and_eq_true] at h
+  exact nodup_of_nodupB h.1.1
 
-theorem parentsOk_of_composite {S : Schema} (hS : SchemaValid S) {n : Name} {ct : TypeDef}
+theorem schemaOk_noReserved {S : Schema} (h : schemaOkB S = true) : NoReservedFields S := by
+  unfold schemaOkB at h
+  simp only [Bool.and_eq_true] at h
+  exact h.1.2
+
+theorem schemaOk_members {S : Schema} (h : schemaOkB S = true) {ct : TypeDef} (hm : ct ∈ S.typeDefs)
+    (hk : ct.kind = .union) : ∀ m ∈ ct.members, ∃ o, S.typeDef? m.1 = some o ∧ o.kind = .object := by
+  unfold schemaOkB at h
+  simp only [Bool.and_eq_true] at h
+  have h1 := List.all_eq_true.mp h.2 ct hm
+  have hb : (TypeKind.union != TypeKind.union) = false := by decide
+  simp only [hk, hb, Bool.false_or] at h1
+  intro m hmm
+  exact kindOf_beq_some (List.all_eq_true.mp h1 m hmm)
+
+theorem schemaOk_of_valid {S : Schema} (h : SchemaValid S) : schemaOkB S = true := by
+  have SF := schemaFacts_of_valid h
+  unfold schemaOkB
+  simp only [Bool.and_eq_true, List.all_eq_true]
+  refine ⟨⟨SF.typeND, schemaValid_noReserved h⟩, ?_⟩
+  intro t ht
+  by_cases hk : t.kind = .union
+  · have hb : (TypeKind.union != TypeKind.union) = false := by decide
+    simp only [hk, hb, Bool.false_or, List.all_eq_true]
+    intro m hm
+    obtain ⟨o, ho, hok⟩ := SF.members t ht m hm
+    simp only [Schema.kindOf?, ho, Option.map_some, hok]
+    decide
+  · have : (t.kind != TypeKind.union) = true := by
+      cases hkk : t.kind <;> first | rfl | exact absurd hkk hk
+    simp [this]
+
+theorem parentsOk_of_composite {S : Schema} (hS : schemaOkB S = true) {n : Name} {ct : TypeDef}
     (hn : S.typeDef? n = some ct) (hc : (CheckOp.directFields ct).isSome = true) : parentsOkB S n = true := by
-  have SF := schemaFacts_of_valid hS
   unfold parentsOkB parentObjects
   rw [hn]
   cases hk : ct.kind with
@@ -72,7 +112,7 @@ theorem parentsOk_of_composite {S : Schema} (hS : SchemaValid S) {n : Name} {ct 
     · next e heq =>
       exfalso
       refine mapM_ne_error ct.members (fun m hm => ?_) e heq
-      obtain ⟨o, ho, hok⟩ := SF.members ct (CheckOp.typeDef?_mem hn) m hm
+      obtain ⟨o, ho, hok⟩ := schemaOk_members hS (CheckOp.typeDef?_mem hn) hk m hm
       refine ⟨o, ?_⟩
       simp only [ho, hok]
       rfl
@@ -148,7 +188,7 @@ theorem possible_cases {S : Schema} (hnd : TypeNamesNodup S) {ct : TypeDef} (hct
 
 /-- a field the checker found on the static parent type `ct` exists on every possible object type `o` of `ct`, at a
     covariant type -/
-theorem field_on_possible {S : Schema} (hS : SchemaValid S) (hI : ifaceOkB S = true) {ct : TypeDef}
+theorem field_on_possible {S : Schema} (hS : schemaOkB S = true) (hI : ifaceOkB S = true) {ct : TypeDef}
     (hct : S.typeDef? ct.name = some ct) {cfields : List FieldDef} (hf : CheckOp.directFields ct = some cfields)
     {name : Name} {fd : FieldDef} (hfd : cfields.find? (·.name == name) = some fd) (hnt : name ≠ "__typename")
     {o : Name} (ho : o ∈ S.possibleTypes ct.name) (hobj : IsObj S o) :
